@@ -213,7 +213,7 @@ def ledger_oracle(res, sw, which):
         if t.crash and which == "ledger" and any(k in t.crash for k in ("heap-use-after-free", "double-free", "attempting free on address")):
             if res.violation("%s: released memory used or released again (%s)" % (label, summarize(t.crash)), sc.text() + "\n# " + t.crash[-2000:], key="ledger:use-after-release"): n += 1
             return
-        if t.hang or (t.crash and not (which == "contract" and t.viol)): return
+        if (t.hang or t.crash) and not (which == "contract" and t.viol): return      # contract violations recorded before a hang / crash still count
         probs = []
         if which == "ledger":
             if t.ledger.get("live_allocs", 0): probs.append("%d allocation(s) never freed" % t.ledger["live_allocs"])
